@@ -5,13 +5,15 @@ From Verif Require Import Common.Bytes Collect.TopN.
 Import ListNotations.
 Local Open Scope Z_scope.
 
-(* compact notation for byte strings in cases files: [bz n v] = the n-byte big-endian string of v *)
+(* compact notation for byte strings in cases files: [bs v] is the byte string whose big-endian
+   digits follow a leading 01 byte in v, e.g. bs 0x016b3530 = "k50" (numerals are what coqc spends its
+   time on when reading a cases file, so a string is written as one numeral) *)
 Fixpoint bz_go (n : nat) (v : Z) (acc : bytes) : bytes :=
   match n with
   | O => acc
   | S n' => bz_go n' (v / 256) (v mod 256 :: acc)
   end.
-Definition bz (n : nat) (v : Z) : bytes := bz_go n v [].
+Definition bs (v : Z) : bytes := bz_go (Z.to_nat (Z.log2 v / 8)) v [].
 
 Definition ids_eqb := list_eqb beqb.
 Definition ids_of (l : list dmatch) : list bytes := map did l.
